@@ -1,7 +1,7 @@
 """C09: raster interlace permutation (mfgr.c)"""
 from .core import ob, prop
 
-GR = dict(unit="mfgr_u.c", file="hdf/src/mfgr.c", cex_unwind=56,
+GR = dict(unit="mfgr_u.c", file="hdf/src/mfgr.c", cex_unwind=4,
           trusted=["DFKNTsize (returns the component size chosen by the harness)"])
 BOUND = "xdim,ydim in 1..3, ncomp in 1..3, component size in {1,2}; all 9 (in,out) interlace pairs"
 # symbolic extents and all 9 (in,out) pairs at once; ncomp and the component size are constants of the run
